@@ -63,14 +63,22 @@ package networkconnector
 //@ pred c30OffDiagPos(table) = forall i in 0..len(table) :: forall j in 0..len(table) :: i != j ==> table[i][j].distance >= 1
 //@ pred c30HopWF(table) = forall i in 0..len(table) :: forall j in 0..len(table) :: table[i][j].distance < 2 * len(table) ==> table[i][j].nextHop != nil
 // every stored next hop of row i is a link that leaves node i (row i's source): the hop can actually be taken from i
-//@ pred c30HopLocal(table) = forall i in 0..len(table) :: forall j in 0..len(table) :: table[i][j].nextHop != nil ==> table[i][j].nextHop.LocalNode == table[i][j].src
+// (off-diagonal cells only: the diagonal hop is `&remotes[0]`, a pointer into ListRemotes' result, which the engine models as a
+// separate object with arbitrary contents; a diagonal hop is never copied to another cell since d[i][i] == 0 never improves a route)
+//@ pred c30HopLocal(table) = forall i in 0..len(table) :: forall j in 0..len(table) :: i != j && table[i][j].nextHop != nil ==> table[i][j].nextHop.LocalNode == table[i][j].src
 //@ pred c30RowSrc(table) = forall i in 0..len(table) :: forall j in 0..len(table) :: table[i][j].src == table[i][i].src
+
+// floydWarshall's entry condition = floydWarshallInit's exit condition (ONE predicate, used by both):
+// square table with pairwise distinct rows; INF = 2*len(table) and 4*len(table) fits uint32 (so the sum of two cells cannot wrap);
+// every distance in 0..INF, diagonal 0, off-diagonal >= 1; a finite cell has a non-nil next hop; an off-diagonal next hop is a
+// link leaving the row's node; one source node per row.
+//@ pred c30FWPre(table) = c30Square(table) && c30RowsDistinct(table) && 4 * len(table) <= 4294967295 && c30DistLe(table, 2 * len(table)) && c30DiagZero(table) && c30OffDiagPos(table) && c30HopWF(table) && c30HopLocal(table) && c30RowSrc(table)
 
 //@ fn (FloydWarshallRouter).floydWarshall
 //@   property C30
 //@   bounded NOT a shortest-path proof: safety + monotonicity + well-formedness for every n (4n <= MaxUint32); optimality/loop-freedom undecided
-//@   requires c30Square(table) && c30RowsDistinct(table) && 4 * len(table) <= 4294967295
-//@   requires c30DistLe(table, 2 * len(table)) && c30DiagZero(table) && c30OffDiagPos(table) && c30HopWF(table) && c30HopLocal(table) && c30RowSrc(table)
+//@   label C30.fw.pre
+//@   requires c30FWPre(table)
 //@   label C30.fw.hoplocal
 //@   ensures c30HopLocal(table)
 //@   label C30.fw.bound
@@ -95,7 +103,62 @@ package networkconnector
 //@   loop 2: invariant forall i in 0..len(table) :: table[i][i].nextHop == old(table[i][i].nextHop)
 // ground instance at the cell written last
 //@   label C30.fw.cell.hoplocal
-//@   loop 2: invariant rangeindex >= 0 ==> (table[i][rangeindex].nextHop != nil ==> table[i][rangeindex].nextHop.LocalNode == table[i][i].src)
+//@   loop 2: invariant rangeindex >= 0 && rangeindex != i ==> (table[i][rangeindex].nextHop != nil ==> table[i][rangeindex].nextHop.LocalNode == table[i][i].src)
+
+// ---- floydWarshallInit: establishes floydWarshall's entry condition (c30FWPre) ----
+// ListRemotes is an interface method (open world): TRUSTED summary. It writes nothing; the number of links it reports is an
+// opaque attribute of the node (c30RemCount, so that "every node has at least one link" can be stated on entry); every reported
+// link leaves the node itself (LocalNode == self: true by construction in connector.go connectSwitches/connectEndPointToSwitch,
+// NOT verified here). Contents are otherwise unconstrained.
+//@ ufunc c30RemCount(n) int
+//@ iface networkconnector.Node.ListRemotes()
+//@   trusted
+//@   ensures len(result) == c30RemCount(self)
+//@   ensures forall k in 0..len(result) :: result[k].LocalNode == self
+//@   assigns nothing
+
+// one initialised cell (row a, column b, n nodes, row's node sn): diagonal = (0, some link); a direct link = (1, that link, leaving
+// sn); anything else = (INF = 2n, no hop).  `<= allocTop`: the hop is an allocated object (later allocations cannot alias it).
+//@ pred c30Cell(c, a, b, n, sn) = c.src == sn && c.nextHop <= allocTop && (a == b ==> c.distance == 0 && c.nextHop != nil) && (a != b ==> ((c.distance == 1 && c.nextHop != nil && c.nextHop.LocalNode == sn) || (c.distance == 2 * n && c.nextHop == nil)))
+//@ pred c30InitRows(table, nodes, r) = forall a in 0..r :: len(table[a]) == len(nodes) && fresh(table[a]) && ref(table[a]) <= allocTop
+//@ pred c30InitSep(table, r) = forall a in 0..r :: forall b in 0..a :: ref(table[a]) != ref(table[b])
+//@ pred c30InitCells(table, nodes, r) = forall a in 0..r :: forall b in 0..len(nodes) :: c30Cell(table[a][b], a, b, len(nodes), nodes[a])
+//@ pred c30NodesOK(nodes) = forall a in 0..len(nodes) :: nodes[a] != nil && c30RemCount(nodes[a]) >= 1
+
+//@ fn (FloydWarshallRouter).floydWarshallInit
+//@   property C30
+// REQUIRES (not `panics`): with more rows than nodes `nodes[i]` is out of range, a nil node or a node without links makes
+// `nodes[i].ListRemotes()` / `&remotes[0]` panic - real panics, excluded here by precondition because "which node has no link" is
+// only expressible through the trusted attribute c30RemCount.  4n <= MaxUint32: uint32(2*len(nodes)) is not truncated (and make() bound).
+//@   requires len(table) == len(nodes) && 4 * len(nodes) <= 4294967295 && c30NodesOK(nodes)
+//@   label C30.init.fwpre
+//@   ensures c30FWPre(table)
+//@   label C30.init.cells
+//@   ensures c30InitCells(table, nodes, len(nodes))
+//@   assigns elems(table)
+//@   loop 0: invariant -1 <= rangeindex && rangeindex < len(table) && len(table) == len(nodes)
+//@   loop 0: invariant c30InitRows(table, nodes, rangeindex + 1)
+//@   loop 0: invariant c30InitSep(table, rangeindex + 1)
+//@   loop 0: invariant c30InitCells(table, nodes, rangeindex + 1)
+//@   loop 1: invariant 0 <= i && i < len(table) && len(table) == len(nodes) && -1 <= rangeindex && rangeindex < len(nodes)
+//@   loop 1: invariant c30InitRows(table, nodes, i + 1)
+//@   loop 1: invariant c30InitSep(table, i + 1)
+//@   loop 1: invariant c30InitCells(table, nodes, i)
+//@   loop 1: invariant forall b in 0..rangeindex + 1 :: c30Cell(table[i][b], i, b, len(nodes), nodes[i])
+//@   loop 1: invariant forall b in rangeindex + 1..len(nodes) :: table[i][b].nextHop == nil      // make() zeroed the row; not written yet
+// ground instances at the cell written last (named obligations for the two ways of getting a cell wrong)
+//@   label C30.init.cell.inf
+//@   loop 1: invariant rangeindex >= 0 && rangeindex != i && table[i][rangeindex].nextHop == nil ==> table[i][rangeindex].distance == 2 * len(nodes)
+//@   label C30.init.cell.link
+//@   loop 1: invariant rangeindex >= 0 && rangeindex != i && table[i][rangeindex].nextHop != nil ==> table[i][rangeindex].distance == 1
+
+// EstablishRoute = make table; Init; floydWarshall; tableToRoute.  THIN: what is checked is that the table handed to floydWarshall
+// satisfies its entry condition (call-site obligation floydWarshall#requires, discharged from floydWarshallInit's postcondition).
+// tableToRoute has no contract (it havocs the heap; its nil-dereference on unreachable devices is NOT decided), hence no assigns/ensures.
+//@ fn (FloydWarshallRouter).EstablishRoute
+//@   property C30
+//@   requires 4 * len(nodes) <= 4294967295 && c30NodesOK(nodes)
+//@   panics any
 
 // findRemote: a copy of the FIRST link of l that leads to node t, or nil when no link does.
 //@ fn findRemote
@@ -106,6 +169,9 @@ package networkconnector
 //@   ensures result != nil ==> fresh(result) && result.RemoteNode == t
 //@   label C30.findremote.first
 //@   ensures forall k in 0..len(l) :: (l[k].RemoteNode == t && (forall m in 0..k :: l[m].RemoteNode != t)) ==> result != nil && result.LocalPort == l[k].LocalPort && result.LocalNode == l[k].LocalNode && result.RemotePort == l[k].RemotePort && result.Link == l[k].Link
+// the copy IS one of l's links (explicit membership: callers need it without an induction over "first")
+//@   label C30.findremote.member
+//@   ensures result != nil ==> exists k in 0..len(l) :: l[k].RemoteNode == t && result.LocalNode == l[k].LocalNode && result.LocalPort == l[k].LocalPort
 //@   assigns nothing
 //@   loop 0: invariant -1 <= rangeindex && rangeindex < len(l)
 //@   loop 0: invariant forall k in 0..rangeindex + 1 :: l[k].RemoteNode != t
